@@ -14,6 +14,7 @@ import (
 	"fmt"
 	"hash/crc32"
 	"os"
+	"path"
 	"runtime"
 	"strconv"
 	"sync"
@@ -110,6 +111,213 @@ func makeBatch(msgs int32, marker byte, pad int) storage.RecordBatch {
 	return storage.RecordBatch{LastOffsetDelta: msgs - 1, MessageCount: msgs, Bytes: data}
 }
 
+// ---- restored segments with foreign / damaged sparse indexes -------------------------------------------------
+//
+// The broker's own writer only emits index entries with Position >= 32 in increasing order.  A partition restored from S3
+// can carry any index a foreign / older writer or a damaged object holds: the entries parsed by RestoreFromS3 are shared by
+// every reader of the partition and are used after l.mu is released.  The stress below restores such partitions and lets
+// several fetchers read the same offsets at the same time (range-read path and cached-slice path).  Read errors / garbage
+// are expected and ignored: only race reports matter here.
+
+func framedBatch(base int64, msgs int32, marker byte, pad int) storage.RecordBatch {
+	data := make([]byte, 70+pad)
+	binary.BigEndian.PutUint64(data[0:8], uint64(base))
+	binary.BigEndian.PutUint32(data[8:12], uint32(len(data)-12))
+	binary.BigEndian.PutUint32(data[23:27], uint32(msgs-1))
+	binary.BigEndian.PutUint32(data[57:61], uint32(msgs))
+	for i := 61; i < len(data); i++ {
+		data[i] = marker
+	}
+	return storage.RecordBatch{BaseOffset: base, LastOffsetDelta: msgs - 1, MessageCount: msgs, Bytes: data}
+}
+
+type idxEntry struct {
+	off int64
+	pos int32
+}
+
+// damagedIndex returns the entries of a foreign/damaged index for a segment whose true entries are `good`.
+func damagedIndex(kind int, low int32, good []idxEntry, size int) []idxEntry {
+	out := append([]idxEntry(nil), good...)
+	switch kind {
+	case 0: // first entry points into the 32-byte header (0, 1, 31), rest as written by the broker
+		out[0].pos = low
+	case 1: // a single entry at position `low` covering the whole segment
+		out = []idxEntry{{good[0].off, low}}
+	case 2: // positions out of order (reversed)
+		for i := range out {
+			out[i].pos = good[len(good)-1-i].pos
+		}
+	case 3: // offsets out of order (reversed), first position low
+		for i := range out {
+			out[i].off = good[len(good)-1-i].off
+		}
+		out[len(out)-1].pos = low
+	case 4: // positions inside the footer / at / beyond the end of the object, first one low
+		out[0].pos = low
+		for i := 1; i < len(out); i++ {
+			out[i].pos = int32(size - 16 + 5*(i-1))
+		}
+	case 5: // every entry inside the header
+		for i := range out {
+			out[i].pos = int32((int(low) + 7*i) % 32)
+		}
+	}
+	return out
+}
+
+type restoredPart struct {
+	part  int32
+	last  int64
+	bases []int64
+}
+
+func restoredPrefixKey(ns, topic string, part int32, base int64, ext string) string {
+	return path.Join(ns, topic, fmt.Sprintf("%d", part), fmt.Sprintf("segment-%020d.%s", base, ext))
+}
+
+// populateRestored uploads 3 segments + damaged indexes per partition straight into the in-memory bucket.
+func populateRestored(mem *storage.MemoryS3Client, ns, topic string, parts int, r *splitmix) ([]restoredPart, error) {
+	ctx := context.Background()
+	lows := []int32{0, 1, 31}
+	var out []restoredPart
+	for p := 0; p < parts; p++ {
+		rp := restoredPart{part: int32(p)}
+		next := int64(0)
+		for s := 0; s < 3; s++ {
+			var batches []storage.RecordBatch
+			base := next
+			nb := 3 + r.below(3)
+			for b := 0; b < nb; b++ {
+				msgs := int32(1 + r.below(3))
+				batches = append(batches, framedBatch(next, msgs, byte(0xA0+s), r.below(120)))
+				next += int64(msgs)
+			}
+			art, err := storage.BuildSegment(storage.SegmentWriterConfig{IndexIntervalMessages: 1}, batches, time.Unix(1700000000, 0))
+			if err != nil {
+				return nil, err
+			}
+			var good []idxEntry
+			for _, e := range art.RelativeIndex {
+				good = append(good, idxEntry{e.Offset, e.Position})
+			}
+			kind := s // segment 0: low first entry, 1: single low entry, 2: seeded
+			if s == 2 {
+				kind = 2 + r.below(4)
+			}
+			low := lows[(p+s+r.below(3))%3]
+			ib := storage.NewIndexBuilder(1)
+			for _, e := range damagedIndex(kind, low, good, len(art.SegmentBytes)) {
+				ib.MaybeAdd(e.off, e.pos, 1)
+			}
+			idx, err := ib.BuildBytes()
+			if err != nil {
+				return nil, err
+			}
+			if err := mem.UploadSegment(ctx, restoredPrefixKey(ns, topic, int32(p), base, "kfs"), art.SegmentBytes); err != nil {
+				return nil, err
+			}
+			if err := mem.UploadIndex(ctx, restoredPrefixKey(ns, topic, int32(p), base, "index"), idx); err != nil {
+				return nil, err
+			}
+			rp.bases = append(rp.bases, base)
+			rp.last = art.LastOffset
+		}
+		out = append(out, rp)
+	}
+	return out, nil
+}
+
+type restoredStats struct {
+	rounds, restoreErrs, mismatch, reads, errs, panics, rangeReads, fullReads atomic.Int64
+}
+
+// restoredRound: a fresh PartitionLog restored from the damaged objects (fresh shared *IndexEntry values), then `width`
+// fetchers released together that read the same offsets in the same order, twice.
+func restoredRound(ctx context.Context, s3 storage.S3Client, shared *cache.SegmentCache, rp restoredPart, ns, topic string, width int, r *splitmix, st *restoredStats, sink *atomic.Int64) {
+	c := shared // evicted all the time by the produce path and the cache hammer
+	switch r.below(3) {
+	case 0:
+		c = cache.NewSegmentCache(1 << 20) // cold: first reads take the S3 paths, later ones the cached-slice path
+	case 1:
+		c = cache.NewSegmentCache(600) // too small to keep a segment: every read is a cache miss
+	}
+	cfg := storage.PartitionLogConfig{
+		Buffer:            storage.WriteBufferConfig{MaxBytes: 1 << 20},
+		Segment:           storage.SegmentWriterConfig{IndexIntervalMessages: 1},
+		ReadAheadSegments: r.below(3),
+		CacheEnabled:      true,
+	}
+	l := storage.NewPartitionLog(ns, topic, rp.part, 0, s3, c, cfg, nil, func(op string, _ time.Duration, _ error) {
+		switch op {
+		case "download_segment_range":
+			st.rangeReads.Add(1)
+		case "download_segment":
+			st.fullReads.Add(1)
+		}
+	}, semaphore.NewWeighted(8))
+	last, err := l.RestoreFromS3(ctx)
+	if err != nil {
+		st.restoreErrs.Add(1)
+		return
+	}
+	if last != rp.last {
+		st.mismatch.Add(1)
+		return
+	}
+	st.rounds.Add(1)
+	// the offsets every fetcher of this round reads: segment bases (index entry exactly at the offset: range read),
+	// offsets inside a segment (full download, then cached slices), offset 0
+	offs := []int64{0}
+	for _, b := range rp.bases {
+		if r.below(3) > 0 {
+			offs = append(offs, b)
+		}
+		if r.below(2) == 0 {
+			offs = append(offs, b+1+int64(r.below(3)))
+		}
+	}
+	for i := len(offs) - 1; i > 0; i-- {
+		j := r.below(i + 1)
+		offs[i], offs[j] = offs[j], offs[i]
+	}
+	maxBytes := int32(0)
+	if r.below(3) > 0 {
+		maxBytes = int32(40 + r.below(600))
+	}
+	start := make(chan struct{})
+	var wg sync.WaitGroup
+	for f := 0; f < width; f++ {
+		wg.Add(1)
+		go func() {
+			defer wg.Done()
+			<-start
+			for pass := 0; pass < 2; pass++ {
+				for _, off := range offs {
+					func() {
+						defer func() {
+							if x := recover(); x != nil {
+								if st.panics.Add(1) <= 3 {
+									fmt.Fprintf(os.Stderr, "restored-read panicked (damaged index, not a C41 alarm): off=%d %v\n", off, x)
+								}
+							}
+						}()
+						data, err := l.Read(ctx, off, maxBytes)
+						if err != nil {
+							st.errs.Add(1)
+							return
+						}
+						sink.Add(int64(crc32.ChecksumIEEE(data) & 1))
+						st.reads.Add(1)
+					}()
+				}
+			}
+		}()
+	}
+	close(start)
+	wg.Wait()
+}
+
 func stress(seed uint64, millis, parts, width int) int {
 	mem := storage.NewMemoryS3Client()
 	s3 := &faultyS3{inner: mem, rng: splitmix{seed}, failPct: 7}
@@ -139,6 +347,12 @@ func stress(seed uint64, millis, parts, width int) int {
 		if _, err := logs[p].RestoreFromS3(context.Background()); err != nil {
 			fmt.Println("restore error", err)
 		}
+	}
+	var rst restoredStats
+	restored, rerr := populateRestored(mem, "ns", "restored", 2, &splitmix{seed ^ 0xC41})
+	if rerr != nil {
+		fmt.Println("restored setup error", rerr)
+		return 3
 	}
 	ctx, cancel := context.WithCancel(context.Background())
 	var wg sync.WaitGroup
@@ -205,6 +419,13 @@ func stress(seed uint64, millis, parts, width int) int {
 			runtime.Gosched()
 		})
 	}
+	for i := range restored {
+		rp := restored[i]
+		guard(fmt.Sprintf("restored-%d", i), func(r *splitmix) {
+			// background context: a round always completes (it is short), cancellation only stops the loop
+			restoredRound(context.Background(), s3, segCache, rp, "ns", "restored", 2+r.below(3), r, &rst, &readBytes)
+		})
+	}
 	for w := 0; w < width; w++ {
 		guard(fmt.Sprintf("cache-%d", w), func(r *splitmix) {
 			base := int64(r.below(6))
@@ -227,6 +448,8 @@ func stress(seed uint64, millis, parts, width int) int {
 		return 3
 	}
 	time.Sleep(30 * time.Millisecond) // let prefetch goroutines finish
+	fmt.Printf("restored rounds=%d reads=%d errors=%d panics=%d range_reads=%d full_reads=%d restore_errors=%d mismatch=%d\n",
+		rst.rounds.Load(), rst.reads.Load(), rst.errs.Load(), rst.panics.Load(), rst.rangeReads.Load(), rst.fullReads.Load(), rst.restoreErrs.Load(), rst.mismatch.Load())
 	fmt.Printf("stress done appends=%d reads=%d flushes=%d errors=%d panics=%d s3uploads=%d s3failures=%d s3ops=%d\n",
 		appends.Load(), reads.Load(), flushes.Load(), errs.Load(), panics.Load(), s3.uploads.Load(), s3.failures.Load(), s3ops.Load())
 	if panics.Load() > 0 {
